@@ -11,12 +11,12 @@ VARIABLES i, bad
 vars == <<i, bad>>
 D(v) == Canon(v[1], v[2], v[3])
 
-\* "inverse to squaring ... and powers of ten": on the square of a number of at most 12 digits sqrt returns that
+\* "inverse to squaring ... and powers of ten": on the square of a number of at most 15 digits sqrt returns that
 \* number, and log of a power of ten is its exponent - exactly, not merely to 15 digits
 EventOK(e) ==
   LET x == D(e.x)  r == D(e.r) IN
   CASE e.fn = "sqrt" -> /\ IsSqrt(x, r)
-                        /\ LET c == RoundP(r[1], r[2], r[3], 12, FALSE) IN DMulExact(c, c) = x => r = c
+                        /\ LET c == RoundP(r[1], r[2], r[3], 15, FALSE) IN DMulExact(c, c) = x => r = c
     [] e.fn = "exp" -> IsExp(x, r)
     [] e.fn = "ln" -> IsLn(x, r)
     [] e.fn = "log" -> IF x[2] = <<1>> /\ ~x[1] THEN r = DInt(x[3]) ELSE IsLog10(x, r)
